@@ -196,6 +196,20 @@ fn history_case(ctx: &mut Ctx, case: u64, rng: &mut Rng, scratch: &Scratch) {
             last_ts.retain(|(dd, _), _| *dd != d);
             ctx.count("remove_recreate", 1);
         }
+        // The store's author *keys* come and go (added after seeded change agent-C13-9): the authors
+        // are the store's, the entries they signed stay in the documents, and so do their heads.
+        if rng.chance(1, 8) {
+            let a = &unis[d].authors[rng.below(unis[d].authors.len())];
+            if rng.chance(1, 2) {
+                let _ = store.import_author(a.clone());
+                trace.push("import the key of an author".to_string());
+            }
+            if rng.chance(2, 3) {
+                let _ = store.delete_author(a.id());
+                trace.push("delete the key of an author".to_string());
+                ctx.count("author_keys_deleted", 1);
+            }
+        }
         let ev = E::of(&e);
         if let Some(prev) = last_ts.get(&(d, ev.author)) {
             if ev.ts < *prev {
